@@ -10,7 +10,9 @@ RULE = ("Model level: MC_TokInput checks in every reachable state that feed() re
         "option sets, on random Unicode strings and on scaled pathological inputs; each run logs panic, the result "
         "and queue state of every feed(), whether end() completed, and the EOF count; TLC judges the monitors "
         "(Trace_Total).  A harness process that dies or exceeds its watchdog is a violation attributed to the case "
-        "it was running.")
+        "it was running.  Parser level: real HTML parses (enumerated tag soup as documents and fragments, chunked random "
+        "soup, scaled nestings/runs of 40 constructs) and real XML parses (soup, structured documents, scaled) through "
+        "tree builder and RcDom; Trace_Sink judges no panic, exactly one EOF token, and queue empty at every Done.")
 SPEC, CFG = "Trace_Total.tla", "Trace_Total.cfg"
 
 
@@ -22,11 +24,17 @@ def run(tier, seed, replay=None):
     r = Run("C04", tier, seed)
     core.build_harness()
     F = ["--fields", "feeds"]
+    SINK = dict(env={"PROP": "C04"})
     if replay:
         meta, lines = core.load_replay(replay)
         src = os.path.join(WORK, "traces", "C04-replay-in.ndjson")
         with open(src, "w") as f:
             f.write("\n".join(lines) + "\n")
+        sub = meta.get("sub", "tok")
+        if sub in ("parse", "xml"):
+            r.gen_validate("replay", [sub, "--replay"] + (["--mode", "sink"] if sub == "xml" else []), "Trace_Sink.tla", "Trace_Sink.cfg", 1,
+                           classify, core.count_resets, stdin_files=[src], crash_is_violation=True, **SINK)
+            return r.finish(RULE, write=False)
         r.gen_validate("replay", ["tok", "--replay"] + F, SPEC, CFG, 1, classify, core.count_lines, stdin_files=[src], crash_is_violation=True)
         return r.finish(RULE, write=False)
     quick = tier == "quick"
@@ -41,6 +49,21 @@ def run(tier, seed, replay=None):
                    SPEC, CFG, N, classify, core.count_lines, timeout=3000, crash_is_violation=True)
     r.gen_validate("tok-scaled", ["tok", "--mode", "scaled", "--scale", 20000 if quick else 1000000] + F, SPEC, CFG, 4,
                    classify, core.count_lines, timeout=3000, crash_is_violation=True)
+    # parser level (HTML tree builder + RcDom, XML tokenizer + tree builder + RcDom): Trace_Sink with PROP=C04 judges
+    # "no panic", "one EOF" on the tree event and "Done => queue empty" on every feed() return
+    TS, TC = "Trace_Sink.tla", "Trace_Sink.cfg"
+    r.gen_validate("html-parse-enum-k3", ["parse", "--mode", "enum", "--k", 3, "--pieces", 10 if quick else 14], TS, TC, N, classify,
+                   core.count_resets, timeout=3000, crash_is_violation=True, **SINK)
+    r.gen_validate("html-parse-random-chunked", ["parse", "--mode", "random", "--n", 300 if quick else 6000, "--maxpieces", 30, "--chunk", "some"],
+                   TS, TC, N, classify, core.count_resets, timeout=3000, crash_is_violation=True, **SINK)
+    r.gen_validate("html-parse-scaled", ["parse", "--mode", "scaled", "--scale", 20000 if quick else 400000], TS, TC, N, classify,
+                   core.count_resets, timeout=3000, crash_is_violation=True, **SINK)
+    r.gen_validate("xml-parse-soup-chunked", ["xml", "--mode", "sink", "--gen", "text", "--n", 300 if quick else 6000, "--chunk", "some"], TS, TC, N,
+                   classify, core.count_resets, timeout=3000, crash_is_violation=True, **SINK)
+    r.gen_validate("xml-parse-structured", ["xml", "--mode", "sink", "--n", 500 if quick else 10000], TS, TC, N, classify, core.count_resets,
+                   timeout=3000, crash_is_violation=True, **SINK)
+    r.gen_validate("xml-parse-scaled", ["xml", "--mode", "sink", "--gen", "scaled", "--scale", 20000 if quick else 400000], TS, TC, 1, classify,
+                   core.count_resets, timeout=3000, crash_is_violation=True, **SINK)
     r.assumptions = ["native stack depth and wall-clock hangs are observed only on the scaled replays (sampled)",
                      "the sink used is contract-abiding (recording sink / RcDom)"]
     return r.finish(RULE)
